@@ -37,6 +37,8 @@ func main() {
 			genConc(seed, n, os.Args[5])
 		case "timer":
 			genTimer(seed, n, os.Args[5])
+		case "citadel":
+			genCitadel(seed, n, os.Args[5])
 		default:
 			os.Exit(2)
 		}
@@ -44,7 +46,7 @@ func main() {
 		switch stream {
 		case "rotate":
 			execRotate(os.Args[3], os.Args[4])
-		case "cache", "conc":
+		case "cache", "conc", "citadel":
 			execCache(os.Args[3], os.Args[4])
 		case "timer":
 			execTimer(os.Args[3], os.Args[4])
@@ -55,7 +57,7 @@ func main() {
 		switch stream {
 		case "rotate":
 			oracleRotate(os.Args[3], os.Args[4])
-		case "cache", "conc":
+		case "cache", "conc", "citadel":
 			oracleCache(os.Args[3], os.Args[4])
 		case "timer":
 			oracleTimer(os.Args[3], os.Args[4])
